@@ -70,14 +70,16 @@ type Rec struct {
 type profile struct {
 	lon0, lat0, radius float64
 	idBase             int64
+	snap               int // 1: first vertex of the first outer has lon == 0 exactly, 2: lat == 0 exactly
 }
 
 var profiles = []profile{
-	{-81.8752338, 41.4176729, 0.01, 1000},
-	{0.0031, -0.0017, 0.01, 1 << 31},      // straddles lon = 0 and lat = 0
-	{150.25, -70.5, 2.0, 1 << 40},         // large, far south-east
-	{-120.5, 60.25, 1e-5, 900000000},      // tiny
-	{0.5, 10, 0.5, 77},                    // a vertex column near lon = 0
+	{-81.8752338, 41.4176729, 0.01, 1000, 0},
+	{0.0031, -0.0017, 0.01, 1 << 31, 0}, // straddles lon = 0 and lat = 0
+	{150.25, -70.5, 2.0, 1 << 40, 0},    // large, far south-east
+	{-120.5, 60.25, 1e-5, 900000000, 0}, // tiny
+	{0, 10, 0.5, 77, 1},                 // a vertex with lon == 0 (lat != 0): still a location
+	{-33.3, 0, 0.02, 5000000000, 2},     // a vertex with lat == 0 (lon != 0): still a location
 }
 
 type layout struct {
@@ -99,12 +101,36 @@ func place(c *Case, seed uint64, h uint64) *layout {
 	p := profiles[int(next()*float64(len(profiles)))%len(profiles)]
 	l := &layout{pt: map[int]orb.Point{}, sym: map[orb.Point]int{}, id: map[int]osm.NodeID{}}
 
+	// vertex angles: counter-clockwise on a circle (convex), slightly irregular
+	ang := make([][]float64, len(c.G)+1)
+	for r := 1; r <= len(c.G); r++ {
+		n := c.G[r-1].N
+		th0 := next() * 2 * math.Pi
+		ang[r] = make([]float64, n+1)
+		for i := 1; i <= n; i++ {
+			ang[r][i] = th0 + 2*math.Pi*(float64(i-1)+0.1*(2*next()-1))/float64(n)
+		}
+	}
+
 	type circ struct{ cx, cy, r float64 }
 	cs := make([]circ, len(c.G)+1)
 	k := 0
-	for r := 1; r <= len(c.G); r++ { // outers: disjoint discs
+	dir := next() * 2 * math.Pi // outers are lined up in this direction: disjoint discs
+	for r := 1; r <= len(c.G); r++ {
 		if c.G[r-1].Parent == 0 {
-			cs[r] = circ{p.lon0 + float64(k)*3*p.radius, p.lat0 + float64(k%2)*0.7*p.radius, p.radius}
+			cx, cy := p.lon0, p.lat0
+			if k == 0 && p.snap == 1 {
+				cx = -(p.radius * math.Cos(ang[r][1]))
+			}
+			if k == 0 && p.snap == 2 {
+				cy = -(p.radius * math.Sin(ang[r][1]))
+			}
+			if k == 0 {
+				cs[r] = circ{cx, cy, p.radius}
+				p.lon0, p.lat0 = cx, cy
+			} else {
+				cs[r] = circ{p.lon0 + float64(k)*3*p.radius*math.Cos(dir), p.lat0 + float64(k)*3*p.radius*math.Sin(dir), p.radius}
+			}
 			k++
 		}
 	}
@@ -128,16 +154,11 @@ func place(c *Case, seed uint64, h uint64) *layout {
 		}
 	}
 	for r := 1; r <= len(c.G); r++ {
-		n := c.G[r-1].N
-		th0 := next() * 2 * math.Pi
-		for i := 1; i <= n; i++ { // counter-clockwise, on a circle (convex), slightly irregular
-			th := th0 + 2*math.Pi*(float64(i-1)+0.1*(2*next()-1))/float64(n)
+		for i := 1; i <= c.G[r-1].N; i++ {
+			th := ang[r][i]
 			pt := orb.Point{cs[r].cx + cs[r].r*math.Cos(th), cs[r].cy + cs[r].r*math.Sin(th)}
-			if pt[0] == 0 {
+			if pt[0] == 0 && pt[1] == 0 { // lon = lat = 0 means "no location" on a way node: outside the property
 				pt[0] = 1e-9
-			}
-			if pt[1] == 0 {
-				pt[1] = 1e-9
 			}
 			s := r*100 + i
 			if _, dup := l.sym[pt]; dup {
@@ -264,6 +285,11 @@ func doCase(c *Case, seed uint64, line []byte) Got {
 	h := fnv.New64a()
 	h.Write(line)
 	l := place(c, seed, h.Sum64())
+	if os.Getenv("C16_DUMP") != "" { // debugging aid for replays: where every symbol was placed
+		for s, pt := range l.pt {
+			fmt.Fprintf(os.Stderr, "sym %d id %d lon %.17g lat %.17g\n", s, l.id[s], pt[0], pt[1])
+		}
+	}
 	got := Got{Runs: []Run{}, Annot: []int{}}
 	for _, src := range []string{"nodes", "waynodes"} {
 		for mi, mask := range c.Masks {
